@@ -414,6 +414,15 @@ pub fn gen_case(seed: u64, shard: u64, run: u64, t: &Tier) -> Option<Case> {
         sparse: knobs.chance(0.7),
     };
     let mut cell = gen::gen_robot(&mut w, &k);
+    {
+        // the last link need not be a body of revolution: a finger bar that is part of link 6
+        let mut fb = Rng::derive(seed, shard, run, "c14.finger");
+        if fb.chance(if cell.tool.is_none() { 0.5 } else { 0.1 }) {
+            let r = fb.range_f64(0.02, 0.05) as f32;
+            let reach = fb.range_f64(0.12, 0.3) as f32;
+            cell.links[5] = MeshSpec::cube([0.4 * r, reach * 0.5, 0.012], [0.0, reach * 0.45, 0.0], 1);
+        }
+    }
     cell.safety = gen::gen_safety(&mut w, cell.tool.is_some(), cell.base.is_some(), k.max_env, false, k.sparse);
     // no-check mode is part of the property's domain: the robot's full check then reports every
     // posture free, so every legal candidate has to be offered
